@@ -29,9 +29,9 @@ pub struct PropDef {
 
 fn c01(tier: &str) -> PropDef {
     let quick = tier == "quick";
-    let sweep_len = if quick { 3 } else { 4 };
-    let seeded = if quick { 30_000 } else { 600_000 };
-    let large = if quick { 16 } else { 600 };
+    let sweep_len = if quick { 3 } else { 12 };
+    let seeded = if quick { 30_000 } else { 1_800_000 };
+    let large = if quick { 16 } else { 1_800 };
     let families = vec![
         Family {
             name: "sweep",
@@ -72,7 +72,7 @@ fn c01(tier: &str) -> PropDef {
     let mut families = families;
     families.push(Family {
         name: "varint-boundary",
-        count: if quick { 60 } else { 3_000 },
+        count: if quick { 60 } else { 9_000 },
         make: Box::new(|seed, idx| {
             let mut r = Rng::stream(seed, "C01", idx, "varint");
             let mut g = G::new(idx);
@@ -290,7 +290,7 @@ const CRASH_ASSUME: [&str; 3] = [
 fn multi_crash_family(quick: bool) -> Family {
     Family {
         name: "multi-crash",
-        count: if quick { 6000 } else { 200_000 },
+        count: if quick { 6000 } else { 600_000 },
         make: Box::new(|seed, idx| {
             // several crashes in one history, each losing a suffix of the storage operations of
             // the call in progress (e.g. the oplog truncate after a header write, repeatedly)
@@ -307,13 +307,13 @@ fn multi_crash_family(quick: bool) -> Family {
 
 fn c02(tier: &str) -> PropDef {
     let quick = tier == "quick";
-    let counts = if quick { [819, 6000, 3000, 1500, 2, 0] } else { [7380, 150_000, 80_000, 30_000, 60, 0] };
+    let counts = if quick { [819, 6000, 3000, 1500, 2, 0] } else { [7_380, 450_000, 240_000, 90_000, 180, 0] };
     PropDef {
         level: "fault_enumeration",
         rule: "case = one history (writer: sweep over the 9-letter alphabet and seeded 2-14 step traces incl. reopen and make_read_only; replica: honest proof applications with reopen steps) executed fault-free on a journalling SimDisk; then EVERY prefix of its mutating-storage-op journal is materialised, reopened with open(true) and fully scanned (length, byte_length, writeable, has/get of every index) and must equal the model snapshot before or after the interrupted call (strictly 'before' when no op of the call was persisted). A seeded third of the recovered cores then runs a 3-5 step suffix (with a reopen) under the C01 oracle; the thorough tier crashes a second time inside that suffix. Family multi-crash: writer histories in which the process dies repeatedly, each time losing the last 0-6 storage operations of the call in progress (recovery must be before-or-after each time and every later operation, reopen and full scan must satisfy the list model). distinct = distinct (history) hash; non-trivial = history with at least one mutating step (every one of them gets all its crash points).",
         assumptions: CRASH_ASSUME.to_vec(),
         families: {
-            let mut f = fault_families("C02", FaultKind::Crash { tear: false, double: !quick }, counts, if quick { 3 } else { 4 });
+            let mut f = fault_families("C02", FaultKind::Crash { tear: false, double: !quick }, counts, if quick { 3 } else { 12 });
             f.push(multi_crash_family(quick));
             f
         },
@@ -322,18 +322,18 @@ fn c02(tier: &str) -> PropDef {
 
 fn c07(tier: &str) -> PropDef {
     let quick = tier == "quick";
-    let counts = if quick { [819, 2500, 1500, 800, 0, 0] } else { [7380, 40_000, 20_000, 10_000, 0, 0] };
+    let counts = if quick { [819, 2500, 1500, 800, 0, 0] } else { [7_380, 120_000, 60_000, 30_000, 0, 0] };
     PropDef {
         level: "fault_enumeration",
         rule: "same histories and oracle as C02, but at every crash point whose next journal op is a write of n bytes only a byte prefix j of it reaches the store: all j in 1..n-1 for n <= 64, otherwise j in {1,3,4,7,8,9,10,12,16,40..44,72..76,108..110, n-1,n-2,n-4,n-8,n-9,n-32,n-33,n-64,n-65, multiples of 512} plus 8 seeded cuts. Tearing lands over existing bytes (header slots are overwritten in place). distinct/non-trivial as for C02.",
         assumptions: CRASH_ASSUME.to_vec(),
-        families: fault_families("C07", FaultKind::Crash { tear: true, double: false }, counts, if quick { 3 } else { 4 }),
+        families: fault_families("C07", FaultKind::Crash { tear: true, double: false }, counts, if quick { 3 } else { 12 }),
     }
 }
 
 fn c10(tier: &str) -> PropDef {
     let quick = tier == "quick";
-    let counts = if quick { [819, 2000, 1200, 500, 0, 0] } else { [7380, 40_000, 20_000, 8_000, 0, 0] };
+    let counts = if quick { [819, 2000, 1200, 500, 0, 0] } else { [7_380, 120_000, 60_000, 24_000, 0, 0] };
     PropDef {
         level: "fault_enumeration",
         rule: "case = one history (as C02) with N storage operations in total on the subject's SimDisk (reads and length queries included; family writer-serving-proofs faults the writer while it serves create_proof requests); it is re-executed N times, each time with one injected I/O error (EIO) at storage op index k = 0..N-1. The public call that issued op k must return Err (not Ok, no panic, no hang); then the instance is dropped, the same storage reopened fault-free and fully scanned: the state must equal the model before or after that call; half of the recoveries then run a 3-5 step suffix under the C01 oracle. distinct/non-trivial as for C02.",
@@ -341,14 +341,14 @@ fn c10(tier: &str) -> PropDef {
             "a failing storage operation has no effect on the store (the error is returned before anything is written)",
             "SimDisk implements the RandomAccess contract exactly as the stock backends do",
         ],
-        families: fault_families("C10", FaultKind::Io, counts, if quick { 3 } else { 4 }),
+        families: fault_families("C10", FaultKind::Io, counts, if quick { 3 } else { 12 }),
     }
 }
 
 fn c03(tier: &str) -> PropDef {
     let quick = tier == "quick";
-    let strict = if quick { 30_000 } else { 600_000 };
-    let big = if quick { 300 } else { 8_000 };
+    let strict = if quick { 30_000 } else { 1_800_000 };
+    let big = if quick { 300 } else { 24_000 };
     let families = vec![
         Family {
             name: "strict",
@@ -397,7 +397,7 @@ fn c03(tier: &str) -> PropDef {
     let mut families = families;
     families.push(Family {
         name: "faulty-network",
-        count: if quick { 10_000 } else { 250_000 },
+        count: if quick { 10_000 } else { 750_000 },
         make: Box::new(|seed, idx| {
             let mut r = Rng::stream(seed, "C03", idx, "network");
             let mut g = G::new(idx);
@@ -412,7 +412,7 @@ fn c03(tier: &str) -> PropDef {
     });
     families.push(Family {
         name: "hash-straddle-probe",
-        count: if quick { 300 } else { 6_000 },
+        count: if quick { 300 } else { 18_000 },
         make: Box::new(|seed, idx| {
             // honest hash requests whose span straddles the replica's length (= upgrade.start)
             let mut r = Rng::stream(seed, "C03", idx, "straddle");
@@ -453,7 +453,7 @@ fn c04(tier: &str) -> PropDef {
     let families = vec![
         Family {
             name: "seeded-alterations",
-            count: if quick { 25_000 } else { 500_000 },
+            count: if quick { 25_000 } else { 1_500_000 },
             make: Box::new(|seed, idx| {
                 let mut r = Rng::stream(seed, "C04", idx, "tamper");
                 let mut g = G::new(idx);
@@ -468,7 +468,7 @@ fn c04(tier: &str) -> PropDef {
         },
         Family {
             name: "full-alteration-set",
-            count: if quick { 12_000 } else { 300_000 },
+            count: if quick { 12_000 } else { 900_000 },
             make: Box::new(|seed, idx| {
                 let mut r = Rng::stream(seed, "C04", idx, "tamper-all");
                 let mut g = G::new(idx);
@@ -493,7 +493,7 @@ fn c09(tier: &str) -> PropDef {
     let quick = tier == "quick";
     let families = vec![Family {
         name: "byzantine",
-        count: if quick { 60_000 } else { 2_000_000 },
+        count: if quick { 60_000 } else { 6_000_000 },
         make: Box::new(|seed, idx| {
             let mut r = Rng::stream(seed, "C09", idx, "byz");
             let mut g = G::new(idx);
@@ -518,7 +518,7 @@ fn c08(tier: &str) -> PropDef {
     let families = vec![
         Family {
             name: "large-writer",
-            count: if quick { 20 } else { 600 },
+            count: if quick { 20 } else { 1_800 },
             make: Box::new(|seed, idx| {
                 let mut r = Rng::stream(seed, "C08", idx, "large");
                 let mut g = G::new(idx);
@@ -530,7 +530,7 @@ fn c08(tier: &str) -> PropDef {
         },
         Family {
             name: "far-apart-replica",
-            count: if quick { 12 } else { 300 },
+            count: if quick { 12 } else { 900 },
             make: Box::new(|seed, idx| {
                 let mut r = Rng::stream(seed, "C08", idx, "far");
                 let count = *r.pick(&[33000u32, 40000, 66000, 70000]);
@@ -580,7 +580,7 @@ fn c08(tier: &str) -> PropDef {
         },
         Family {
             name: "replica-full-page",
-            count: if quick { 3 } else { 40 },
+            count: if quick { 3 } else { 120 },
             make: Box::new(|seed, idx| {
                 // a replica that ends up holding whole 32768-block pages, the last gap closing
                 // in front of blocks that reach the end of the highest page
@@ -612,7 +612,7 @@ fn c08(tier: &str) -> PropDef {
         },
         Family {
             name: "small-writer",
-            count: if quick { 15_000 } else { 400_000 },
+            count: if quick { 15_000 } else { 1_200_000 },
             make: Box::new(|seed, idx| {
                 let mut r = Rng::stream(seed, "C08", idx, "small");
                 let mut g = G::new(idx);
@@ -624,7 +624,7 @@ fn c08(tier: &str) -> PropDef {
         },
         Family {
             name: "small-replica",
-            count: if quick { 12_000 } else { 300_000 },
+            count: if quick { 12_000 } else { 900_000 },
             make: Box::new(|seed, idx| {
                 let mut r = Rng::stream(seed, "C08", idx, "replica");
                 let mut g = G::new(idx);
@@ -644,7 +644,7 @@ fn c08(tier: &str) -> PropDef {
         },
         Family {
             name: "crash-recovery",
-            count: if quick { 3000 } else { 60_000 },
+            count: if quick { 3000 } else { 180_000 },
             make: Box::new(|seed, idx| {
                 let mut r = Rng::stream(seed, "C08", idx, "crash");
                 let mut g = G::new(idx);
@@ -700,7 +700,7 @@ fn c12(tier: &str) -> PropDef {
     let families = vec![
         Family {
             name: "writer-histories",
-            count: if quick { 20_000 } else { 400_000 },
+            count: if quick { 20_000 } else { 1_200_000 },
             make: Box::new(move |seed, idx| {
                 let (_r, steps) = h1(seed, idx);
                 world_case(Cfg::basic(seed ^ idx), steps, Fault::None)
@@ -708,7 +708,7 @@ fn c12(tier: &str) -> PropDef {
         },
         Family {
             name: "replica-histories",
-            count: if quick { 6_000 } else { 120_000 },
+            count: if quick { 6_000 } else { 360_000 },
             make: Box::new(|seed, idx| {
                 let mut r = Rng::stream(seed, "C12", idx, "replica");
                 let mut g = G::new(idx);
@@ -729,7 +729,7 @@ fn c12(tier: &str) -> PropDef {
         },
         Family {
             name: "crash-in-make-read-only",
-            count: if quick { 2500 } else { 50_000 },
+            count: if quick { 2500 } else { 150_000 },
             make: Box::new(move |seed, idx| {
                 let (mut r, steps) = h2(seed, idx);
                 world_case(Cfg::basic(seed ^ idx), steps, Fault::CrashAll { node: 0, tear: false, suffix_seed: r.next(), double: false, sample: 0 })
@@ -737,7 +737,7 @@ fn c12(tier: &str) -> PropDef {
         },
         Family {
             name: "torn-write-in-make-read-only",
-            count: if quick { 700 } else { 15_000 },
+            count: if quick { 700 } else { 45_000 },
             make: Box::new(move |seed, idx| {
                 let (mut r, steps) = h3(seed, idx);
                 world_case(Cfg::basic(seed ^ idx), steps, Fault::CrashAll { node: 0, tear: true, suffix_seed: r.next(), double: false, sample: 0 })
@@ -757,7 +757,7 @@ fn c13(tier: &str) -> PropDef {
     let families = vec![
         Family {
             name: "writer",
-            count: if quick { 20_000 } else { 400_000 },
+            count: if quick { 20_000 } else { 1_200_000 },
             make: Box::new(|seed, idx| {
                 let mut r = Rng::stream(seed, "C13", idx, "writer");
                 let mut g = G::new(idx);
@@ -772,7 +772,7 @@ fn c13(tier: &str) -> PropDef {
         },
         Family {
             name: "replication-with-refusals",
-            count: if quick { 20_000 } else { 400_000 },
+            count: if quick { 20_000 } else { 1_200_000 },
             make: Box::new(|seed, idx| {
                 let mut r = Rng::stream(seed, "C13", idx, "repl");
                 let mut g = G::new(idx);
@@ -788,7 +788,7 @@ fn c13(tier: &str) -> PropDef {
         },
         Family {
             name: "faulty-network",
-            count: if quick { 3000 } else { 60_000 },
+            count: if quick { 3000 } else { 180_000 },
             make: Box::new(|seed, idx| {
                 // duplicated / stale / reordered deliveries: accepted redundant upgrades and
                 // refused stale proofs must announce exactly what the proof carried / nothing
@@ -806,7 +806,7 @@ fn c13(tier: &str) -> PropDef {
         },
         Family {
             name: "failing-calls",
-            count: if quick { 1000 } else { 20_000 },
+            count: if quick { 1000 } else { 60_000 },
             make: Box::new(|seed, idx| {
                 let mut r = Rng::stream(seed, "C13", idx, "fail");
                 let mut g = G::new(idx);
@@ -875,7 +875,7 @@ fn c05(tier: &str) -> PropDef {
         },
         Family {
             name: "seeded",
-            count: if quick { 1500 } else { 40_000 },
+            count: if quick { 1500 } else { 120_000 },
             make: Box::new(|seed, idx| {
                 let mut r = Rng::stream(seed, "C05", idx, "seeded");
                 let mut g = G::new(idx);
@@ -890,7 +890,7 @@ fn c05(tier: &str) -> PropDef {
         },
         Family {
             name: "long",
-            count: if quick { 30 } else { 1_000 },
+            count: if quick { 30 } else { 3_000 },
             make: Box::new(|seed, idx| {
                 let mut r = Rng::stream(seed, "C05", idx, "long");
                 let mut g = G::new(idx);
@@ -919,7 +919,7 @@ fn c05(tier: &str) -> PropDef {
         },
         Family {
             name: "crash-recovery-then-flush",
-            count: if quick { 1000 } else { 25_000 },
+            count: if quick { 1000 } else { 75_000 },
             make: Box::new(|seed, idx| {
                 // recovered cores run a suffix; the suffix world judges tree/header/signatures too
                 let mut r = Rng::stream(seed, "C05", idx, "crash");
@@ -951,7 +951,7 @@ fn c06(tier: &str) -> PropDef {
         },
         Family {
             name: "reader-writer-histories",
-            count: if quick { 12_000 } else { 300_000 },
+            count: if quick { 12_000 } else { 900_000 },
             make: Box::new(|seed, idx| {
                 let mut r = Rng::stream(seed, "C06", idx, "reader");
                 let mut g = G::new(idx);
@@ -966,7 +966,7 @@ fn c06(tier: &str) -> PropDef {
         },
         Family {
             name: "reader-replica-histories",
-            count: if quick { 8_000 } else { 200_000 },
+            count: if quick { 8_000 } else { 600_000 },
             make: Box::new(|seed, idx| {
                 let mut r = Rng::stream(seed, "C06", idx, "reader-replica");
                 let mut g = G::new(idx);
@@ -981,7 +981,7 @@ fn c06(tier: &str) -> PropDef {
         },
         Family {
             name: "reader-varint-boundary",
-            count: if quick { 40 } else { 2_000 },
+            count: if quick { 40 } else { 6_000 },
             make: Box::new(|seed, idx| {
                 let mut r = Rng::stream(seed, "C06", idx, "varint");
                 let mut g = G::new(idx);
@@ -994,7 +994,7 @@ fn c06(tier: &str) -> PropDef {
         },
         Family {
             name: "reader-large",
-            count: if quick { 4 } else { 80 },
+            count: if quick { 4 } else { 240 },
             make: Box::new(|seed, idx| {
                 // cores spanning several 32768-block bitfield pages (page offsets, page-crossing clears)
                 let mut r = Rng::stream(seed, "C06", idx, "reader-large");
@@ -1014,7 +1014,7 @@ fn c06(tier: &str) -> PropDef {
         },
         Family {
             name: "js-encoded-stores-large",
-            count: if quick { 3 } else { 60 },
+            count: if quick { 3 } else { 180 },
             make: Box::new(|seed, idx| {
                 let mut r = Rng::stream(seed, "C06", idx, "jswrite-large");
                 let n = *r.pick(&[32769u32, 33000, 65537]);
@@ -1035,7 +1035,7 @@ fn c06(tier: &str) -> PropDef {
         },
         Family {
             name: "js-encoded-stores",
-            count: if quick { 25_000 } else { 600_000 },
+            count: if quick { 25_000 } else { 1_800_000 },
             make: Box::new(|seed, idx| {
                 let mut r = Rng::stream(seed, "C06", idx, "jswrite");
                 let spec = crate::jsfmt::gen_js_store(&mut r, idx);
@@ -1059,17 +1059,17 @@ fn c15(tier: &str) -> PropDef {
     let families = vec![
         Family {
             name: "dfs-small",
-            count: if quick { 300 } else { 6000 },
+            count: if quick { 300 } else { 18_000 },
             make: Box::new(move |seed, idx| {
                 let mut r = Rng::stream(seed, "C15", idx, "dfs");
                 let mut spec = crate::c15::gen_spec(&mut r, idx, true);
-                spec.sched = crate::c15::Sched::Dfs { cap: if quick { 300 } else { 3000 } };
+                spec.sched = crate::c15::Sched::Dfs { cap: if quick { 300 } else { 9_000 } };
                 shared_case(spec)
             }),
         },
         Family {
             name: "random",
-            count: if quick { 150_000 } else { 6_000_000 },
+            count: if quick { 150_000 } else { 18_000_000 },
             make: Box::new(move |seed, idx| {
                 let mut r = Rng::stream(seed, "C15", idx / 8, "random");
                 // 8 schedules per workload
@@ -1080,7 +1080,7 @@ fn c15(tier: &str) -> PropDef {
         },
         Family {
             name: "starved-waiters",
-            count: if quick { 6_000 } else { 200_000 },
+            count: if quick { 6_000 } else { 600_000 },
             make: Box::new(move |seed, idx| {
                 // async-lock hands the lock over in queue order only to waiters that waited more
                 // than 500 us: these runs force that mode so that the gap between two lock
@@ -1098,18 +1098,18 @@ fn c15(tier: &str) -> PropDef {
         },
         Family {
             name: "starved-dfs-small",
-            count: if quick { 60 } else { 1500 },
+            count: if quick { 60 } else { 4_500 },
             make: Box::new(move |seed, idx| {
                 let mut r = Rng::stream(seed, "C15", idx, "starved-dfs");
                 let mut spec = crate::c15::gen_spec(&mut r, idx, true);
                 spec.starve = true;
-                spec.sched = crate::c15::Sched::Dfs { cap: if quick { 60 } else { 600 } };
+                spec.sched = crate::c15::Sched::Dfs { cap: if quick { 60 } else { 1_800 } };
                 shared_case(spec)
             }),
         },
         Family {
             name: "pct",
-            count: if quick { 80_000 } else { 3_000_000 },
+            count: if quick { 80_000 } else { 9_000_000 },
             make: Box::new(move |seed, idx| {
                 let mut r = Rng::stream(seed, "C15", idx / 8, "pct");
                 let mut spec = crate::c15::gen_spec(&mut r, idx / 8, false);
@@ -1339,6 +1339,11 @@ pub fn check(opts: &RunOpts, t0: Instant) -> i32 {
         eprintln!("harness error: no check for property {}", opts.prop);
         return 2;
     };
+    let mut def = def;
+    if let Ok(only) = std::env::var("HCSIM_FAMILY") {
+        // developer aid: run a single family
+        def.families.retain(|f| f.name == only);
+    }
     let fams: Vec<(String, u64)> = def.families.iter().map(|f| (f.name.to_string(), f.count)).collect();
     let def_meta = PropDef { level: def.level, rule: def.rule, assumptions: def.assumptions.clone(), families: vec![] };
     let mut s = harness::run_families(opts, def.families);
